@@ -90,16 +90,67 @@ def yaml_string(s, style, rng=None):
     return json.dumps(s, ensure_ascii=False)
 
 
+def _block_ok(s):
+    if '\n' not in s or s.startswith('\n') or s.startswith(' '):
+        return False
+    lines = s.rstrip('\n').split('\n')
+    return all(l and l == l.strip(' ') and l.isprintable() for l in lines) and s.rstrip('\n') != ''
+
+
+def _block_scalar(s, ind):
+    n = len(s) - len(s.rstrip('\n'))
+    chomp = '-' if n == 0 else ('' if n == 1 else '+')
+    body = s.rstrip('\n').split('\n') + [''] * max(0, n - 1)
+    pad = ' ' * (ind + 2)
+    return '|' + chomp + '\n' + ''.join((pad + l if l else '') + '\n' for l in body)
+
+
+_ANCH = {}
+
+
 def to_yaml(v, rng=None, style=None):
-    """style: 'quoted' (block, all strings double-quoted), 'plain' (block, plain/single where safe), 'flow'."""
-    style = style or (rng.choice(['quoted', 'plain', 'flow']) if rng else 'quoted')
+    """style: 'quoted' (block, all strings double-quoted), 'plain' (block, plain/single where safe), 'flow',
+    'rich' (block; multi-line strings as block scalars, repeated container subtrees as anchor + alias)."""
+    style = style or (rng.choice(['quoted', 'plain', 'flow', 'rich']) if rng else 'quoted')
     if style == 'flow':
         return json.dumps(v, ensure_ascii=False) + '\n'
+    _ANCH.clear()
+    if style == 'rich':
+        seen = {}
+        for sub in _subtrees(v):
+            k = json.dumps(sub, sort_keys=True)
+            seen[k] = seen.get(k, 0) + 1
+        n = 0
+        for k, c in seen.items():
+            if c > 1:
+                n += 1
+                _ANCH[k] = ['a%d' % n, False]
     if isinstance(v, dict) and v:
         return _yaml_map(v, 0, style, rng)
     if isinstance(v, list) and v:
         return _yaml_list(v, 0, style, rng)
     return _yaml_inline(v, style, rng) + '\n'
+
+
+def _subtrees(v, top=True):
+    if isinstance(v, (dict, list)) and v:
+        if not top:
+            yield v
+        for x in (v.values() if isinstance(v, dict) else v):
+            yield from _subtrees(x, False)
+
+
+def _anchor(v):
+    """('&name ' to emit, None) the first time, (None, '*name') afterwards, (None, None) if not anchored."""
+    if not _ANCH or not isinstance(v, (dict, list)) or not v:
+        return None, None
+    a = _ANCH.get(json.dumps(v, sort_keys=True))
+    if a is None:
+        return None, None
+    if a[1]:
+        return None, '*' + a[0]
+    a[1] = True
+    return '&' + a[0], None
 
 
 def _yaml_inline(v, style, rng):
@@ -118,11 +169,17 @@ def _yaml_map(m, ind, style, rng):
     for k, v in m.items():
         ks = yaml_string(k, style, rng)
         if (isinstance(v, dict) or isinstance(v, list)) and v:
-            out.append('%s%s:\n' % (pad, ks))
+            anc, ali = _anchor(v)
+            if ali:
+                out.append('%s%s: %s\n' % (pad, ks, ali))
+                continue
+            out.append('%s%s:%s\n' % (pad, ks, ' ' + anc if anc else ''))
             if isinstance(v, dict):
                 out.append(_yaml_map(v, ind + 2, style, rng))
             else:
                 out.append(_yaml_list(v, ind + 2, style, rng))
+        elif style == 'rich' and isinstance(v, str) and _block_ok(v):
+            out.append('%s%s: %s' % (pad, ks, _block_scalar(v, ind)))
         else:
             out.append('%s%s: %s\n' % (pad, ks, _yaml_inline(v, style, rng)))
     return ''.join(out)
@@ -132,12 +189,17 @@ def _yaml_list(l, ind, style, rng):
     out = []
     pad = ' ' * ind
     for v in l:
-        if isinstance(v, dict) and v:
-            out.append('%s-\n' % pad)
+        anc, ali = _anchor(v)
+        if ali:
+            out.append('%s- %s\n' % (pad, ali))
+        elif isinstance(v, dict) and v:
+            out.append('%s-%s\n' % (pad, ' ' + anc if anc else ''))
             out.append(_yaml_map(v, ind + 2, style, rng))
         elif isinstance(v, list) and v:
-            out.append('%s-\n' % pad)
+            out.append('%s-%s\n' % (pad, ' ' + anc if anc else ''))
             out.append(_yaml_list(v, ind + 2, style, rng))
+        elif style == 'rich' and isinstance(v, str) and _block_ok(v):
+            out.append('%s- %s' % (pad, _block_scalar(v, ind)))
         else:
             out.append('%s- %s\n' % (pad, _yaml_inline(v, style, rng)))
     return ''.join(out)
@@ -206,6 +268,10 @@ def toml_key(k, rng=None):
 
 
 def toml_string(s, rng=None):
+    if rng and '\n' in s and not any(l in ('---', '+++') for l in s.split('\n')) and '"' not in s and '\\' not in s and "'" not in s and all(c.isprintable() or c == '\n' for c in s) and rng.random() < 0.5:
+        # multi-line basic / literal string; the newline right after the opening delimiter is trimmed
+        q = '"""' if rng.random() < 0.5 else "'''"
+        return q + '\n' + s + q
     if rng and rng.random() < 0.3 and "'" not in s and s.isprintable():
         return "'" + s + "'"
     r = json.dumps(s, ensure_ascii=False)
